@@ -514,8 +514,27 @@ def try_trait(ex, which, method, args, dty):
 
 
 # ---------------------------------------------------------------- numext big integers
+def big_norm(v):
+    """numext values written as limb arrays (`U512([l0, .., l7])`, little-endian u64 limbs) -> one integer"""
+    from .exec import ListV
+    if isinstance(v, AggV) and len(v.fields) == 1 and type_head(v.ty) in ("U256", "U512", "U128"):
+        limbs = v.fields[0]
+        items = limbs.items if isinstance(limbs, ListV) else (limbs.fields if isinstance(limbs, AggV) else None)
+        if items is not None and all(isinstance(x, IntV) for x in items):
+            t = 0
+            for i, x in enumerate(items):
+                t = T.add(t, T.mul(x.t, 1 << (64 * i)))
+            return IntV(t, type_head(v.ty))
+    return v
+
+
 def big_trait(ex, ty, trait, targ, method, a, b, dty):
     lo, hi = ty_range(ty)
+    a, b = big_norm(a), big_norm(b)
+    if trait == "UintConvert" and method == "convert_into" and isinstance(a, IntV) and targ in ("U256", "U512", "U128"):
+        tlo, thi = ty_range(targ)
+        fits = T.le(a.t, thi)
+        return AggV((IntV(T.ite(fits, a.t, T.emod(a.t, thi + 1)), targ), BoolV(T.not_(fits))), dty)
     if trait in ("Add", "Sub", "Mul") and isinstance(a, IntV) and isinstance(b, IntV):
         r = {"Add": T.add, "Sub": T.sub, "Mul": T.mul}[trait](a.t, b.t)
         # numext: `+`,`-`,`*` panic on overflow (checked_* + expect) -- see numext-fixed-uint ops
@@ -530,6 +549,16 @@ def big_trait(ex, ty, trait, targ, method, a, b, dty):
         if trait == "Shl":
             return IntV(T.emod(T.mul(a.t, 1 << b.t), hi + 1), ty)
         return IntV(T.ediv(a.t, 1 << b.t), ty)
+    if trait in ("Shl", "Shr") and isinstance(a, IntV) and isinstance(b, IntV):
+        # symbolic amount: numext shifts by >= bits give zero; a case split over the amount (exact)
+        bits = hi.bit_length()
+        blo, bhi = T.bounds(b.t)
+        top = bits if bhi is None else min(bits, bhi + 1)
+        r = 0
+        for k in range(top - 1, -1, -1):
+            sh = T.emod(T.mul(a.t, 1 << k), hi + 1) if trait == "Shl" else T.ediv(a.t, 1 << k)
+            r = T.ite(T.eq(b.t, k), sh, r)
+        return IntV(r, ty)
     return NOT_BUILTIN
 
 
@@ -553,6 +582,12 @@ def big_method(ex, c, args, dty):
                 return BoolV(T.eq(a.t, b.t) if method == "eq" else T.ne(a.t, b.t))
             if trait == "Clone":
                 return a
+            if trait in ("ShlAssign", "ShrAssign", "AddAssign", "SubAssign", "MulAssign", "DivAssign", "RemAssign") and isinstance(args[0], RefV):
+                r = big_trait(ex, ty, trait[:-6], targ, method, a, b, ty)
+                if r is NOT_BUILTIN:
+                    return NOT_BUILTIN
+                _wr(ex, args[0], r)
+                return UNIT
             return big_trait(ex, ty, trait, targ, method, a, b, dty)
         return NOT_BUILTIN
     ty, name = m.groups()
@@ -570,6 +605,12 @@ def big_method(ex, c, args, dty):
         return BoolV(T.eq(a.t, 0))
     if name == "is_max":
         return BoolV(T.eq(a.t, hi))
+    if name == "leading_zeros" and isinstance(a, IntV):
+        bits = hi.bit_length()
+        r = bits
+        for k in range(bits):
+            r = T.ite(T.ge(a.t, 1 << k), bits - 1 - k, r)
+        return IntV(r, "u32")
     b = deref(ex, args[1]) if len(args) > 1 else None
     mm = re.match(r"(checked|saturating|overflowing)_(add|sub|mul)$", name)
     if mm and isinstance(a, IntV) and isinstance(b, IntV):
